@@ -28,7 +28,8 @@ REQUIRED_COUNTERS = {"tasks_compared": {"quick": 2000, "thorough": 40000},
                      "same_thread_name_cases": {"quick": 2, "thorough": 4},
                      "pingpong_falsy_callable": {"quick": 4, "thorough": 12},
                      "pingpong_abandon_on_cancel": {"quick": 4, "thorough": 12},
-                     "pingpong_abandon_mixed": {"quick": 4, "thorough": 12}}
+                     "pingpong_abandon_mixed": {"quick": 4, "thorough": 12},
+                     "deep_task_cases": {"quick": 2, "thorough": 2}}
 SHARD_TIMEOUT = {"quick": 400, "thorough": 5400}
 
 
@@ -382,6 +383,56 @@ def worker(spec):
             vis = [f.funcname for f in s.frames if not f.hide]
             if problems:
                 res.violation(kind="trio thread ping-pong", depth=d, variant=VARIANT[0], problems=problems, visible=vis, interp=interp)
+    # ---- a long stack: a task more than 100 awaits deep that opens its nurseries at the bottom
+    async def deep_walker(n, started):
+        if n:
+            return await deep_walker(n - 1, started)
+        async with trio.open_nursery() as inner:
+            inner.start_soon(trio.sleep_forever, name="deep-kid-a")
+            inner.start_soon(trio.sleep_forever, name="deep-kid-b")
+            started.set()
+            await trio.sleep_forever()
+
+    async def deep_main(depth, out):
+        started = trio.Event()
+        async with trio.open_nursery() as top:
+            top.start_soon(deep_walker, depth, started, name="deep")
+            await started.wait()
+            await trio.testing.wait_all_tasks_blocked()
+            task = [t for t in top.child_tasks if t.name == "deep"][0]
+            with warnings.catch_warnings(record=True) as w:
+                warnings.simplefilter("always")
+                out["stack"] = stackscope.extract(task, recurse_child_tasks=True)
+            out["warnings"] = [str(x.message)[:100] for x in w]
+            out["kids"] = sorted(t.name for n in task.child_nurseries for t in n.child_tasks)
+            top.cancel_scope.cancel()
+
+    for depth in (105, 130 + 10 * (spec["seed"] % 3)):
+        out = {}
+        try:
+            trio.run(deep_main, depth, out)
+        except BaseException as e:  # noqa
+            res.inconclusive.append("deep-walker scenario raised %r" % (e,))
+            continue
+        res.evaluations += 1
+        res.count("deep_task_cases")
+        res.nontrivial("deep-task", depth)
+        s = out["stack"]
+        problems = []
+        nwalk = sum(1 for f in s.frames if f.funcname == "deep_walker")
+        if nwalk != depth + 1:
+            problems.append("%d deep_walker frames, the task is %d deep" % (nwalk, depth + 1))
+        if s.error is not None:
+            problems.append("error %r" % (s.error,))
+        if out["warnings"]:
+            problems.append("warning %r" % (out["warnings"][0],))
+        nurs = [c for f in s.frames for c in f.contexts if isinstance(c.obj, trio.Nursery)]
+        got_kids = sorted(getattr(ch.root, "name", "?") for c in nurs for ch in c.children)
+        if got_kids != out["kids"]:
+            problems.append("children at the bottom %r, Trio has %r" % (got_kids, out["kids"]))
+        if problems:
+            res.violation(kind="trio: deep task", depth=depth, problems=problems[:3], interp=interp)
+
     # ---- sibling tasks whose worker threads were given the same thread_name (one string object)
     sib_ev = threading.Event()
     sib_arrived = []
